@@ -23,7 +23,6 @@ import string
 
 from runtime.common import use_repo, spec_examples, chunks, Timer
 from runtime import latex_wf
-from runtime.html_wf import residues
 
 use_repo()
 
@@ -265,22 +264,10 @@ def monitor(out, doc):
     """-> (hard violation or None, verb-in-arg violation or None, stats, facts, math)"""
     facts, math = set(), []
     walk(doc, facts, math)
-    best = None
-    cands = residues(out, math) if math else [out]
-    for res in cands:
-        v, st = latex_wf.check(res)
-        hard = [z for z in v if z['code'] != 'verb-in-argument']
-        soft = [z for z in v if z['code'] == 'verb-in-argument']
-        cur = (hard[0] if hard else None, soft[0] if soft else None, st)
-        if best is None:
-            best = cur
-        if not hard:
-            best = cur
-            break
-    if best is None:
-        best = ({'code': 'math-piece-not-found', 'pos': 0, 'ctx': 'math', 'near': repr(math)[:80]},
-                None, {'escaped': 0, 'verbatim': 0, 'args': 0, 'groups': 0, 'envs': 0})
-    return best[0], best[1], best[2], facts, math
+    v, st = latex_wf.check(out, math)
+    hard = [z for z in v if z['code'] != 'verb-in-argument']
+    soft = [z for z in v if z['code'] == 'verb-in-argument']
+    return (hard[0] if hard else None), (soft[0] if soft else None), st, facts, math
 
 
 def classify(z, facts):
@@ -288,6 +275,8 @@ def classify(z, facts):
         return 'verb-inside-macro-argument'
     if z['code'] == 'verb-star-form' or (z.get('ctx') == 'verb' and z.get('star')):
         return 'verb-star-delimiter'
+    if z['code'] == 'math-span-malformed':
+        return 'math-token-ends-at-escaped-dollar'
     if z.get('ctx') == 'includegraphics':
         return 'includegraphics-src-raw'
     if z.get('ctx') == 'lstlisting-language':
@@ -357,7 +346,7 @@ def eval_plain(acc, rr, x, dom):
         acc.fail('noraise', cls, x, {'exception': _exc(e)}, dom)
         return None
     hard, soft, st, facts, math = monitor(out, doc)
-    if st['escaped'] + st['verbatim'] + st['args'] + len(math) > 0:
+    if st['escaped'] + st['verbatim'] + st['args'] + st['math'] > 0:
         acc.res['distinct_nontrivial'] += 1
     if hard is not None:
         acc.fail('latex-wf', classify(hard, facts), x,
